@@ -293,6 +293,55 @@ func insertionCase(g *gen.G, p *big.Int, d, b int, tree *ref.Tree, nIns int) (st
 	if mut == "wrongpost" {
 		post = new(big.Int).Mod(new(big.Int).Add(post, big.NewInt(1)), p)
 	}
+	// forged NON-BINARY decomposition (one case in eight, BN254, 2 <= depth <= 12): the path "bits" of
+	// the first index are (b0+2, b1-1, b2, …) — the right weighted sum, not booleans.  The roots the
+	// circuit itself computes from them are obtained by running the repository's VerifyProof on that
+	// path (circuits.VerifyProofCapture); with ProofRound's booleanity assertion in place nothing is
+	// captured and the ordinary case below is produced.  If something is captured, the one-element
+	// batch (start, pre', post') is presented to the compiled InsertionProof with an NBits hint that
+	// returns the forged vector: the gate table (ToBinary = booleans recomposing to the value) and
+	// the specification say reject.
+	if !full && p.Cmp(gen.BN254) == 0 && d >= 2 && d <= 12 && start.BitLen() <= d && g.Chance(1, 8) {
+		forged := make([]*big.Int, d)
+		for i := range forged {
+			forged[i] = big.NewInt(int64(start.Bit(i)))
+		}
+		forged[0].Add(forged[0], big.NewInt(2))
+		forged[1].Sub(forged[1], big.NewInt(1)).Mod(forged[1], p)
+		capture := func(leaf *big.Int) *big.Int {
+			circuits.Captured = nil
+			c := &circuits.VerifyProofCapture{Sibs: make([]frontend.Variable, d), Path: make([]frontend.Variable, d)}
+			a := &circuits.VerifyProofCapture{Leaf: leaf, Sibs: vars(proofs[0]), Path: vars(forged)}
+			if test.IsSolved(c, a, p) != nil {
+				return nil
+			}
+			return circuits.Captured
+		}
+		if fpre, fpost := capture(big.NewInt(0)), capture(ids[0]); fpre != nil && fpost != nil {
+			line := fmt.Sprintf("ins\t%s\t%d\t%s\t%s\t%s\t%s\t%s", p, d, start, fpre, fpost, gen.Csv(ids[:1]), gen.Csv2(proofs[:1]))
+			mk := func() *circuits.InsertionProofCircuit {
+				return &circuits.InsertionProofCircuit{Start: start, Pre: fpre, Post: fpost, Ids: vars(ids[:1]), Proofs: vars2(proofs[:1])}
+			}
+			errs := map[string]error{"te": test.IsSolved(circuits.NewInsertionProofCircuit(d, 1), mk(), p)}
+			adv := map[string]error{}
+			if ccs := getCCS("ins", d, 1); ccs != nil {
+				errs["r1cs"] = r1csx.Solve(ccs, mk(), nil)
+				adv["nbits-nonbinary"] = r1csx.Solve(ccs, mk(), map[hint.ID]hint.Function{r1csx.NBitsID: func(_ *big.Int, inputs []*big.Int, results []*big.Int) error {
+					if len(results) == d && inputs[0].Cmp(start) == 0 {
+						for i := range results {
+							results[i].Set(forged[i])
+						}
+						return nil
+					}
+					for i := range results {
+						results[i].SetUint64(uint64(inputs[0].Bit(i)))
+					}
+					return nil
+				}})
+			}
+			return line, verdict(errs, adv), "ins:forged-nonbinary"
+		}
+	}
 	if full {
 		line := fmt.Sprintf("insfull\t%s\t%d\t%s\t%s\t%s\t%s\t%s", p, d, start, pre, post, gen.Csv(ids), gen.Csv2(proofs))
 		res := "reject"
